@@ -1,8 +1,9 @@
 (* C02 — A successful result is a genuine fixed point, never a stale guess.  Only statements. *)
 From Coq Require Import NArith ZArith List Bool.
 From CA Require Import Model.Lexer Model.Parser Model.BigIntOps Model.Matcher Model.Evaluator Model.Resolver
-  Proofs.ResolverFixP Proofs.ResolverTopP.
+  Proofs.ResolverFixP Proofs.ResolverTopP Proofs.CertifiedP.
 Import ListNotations.
+Open Scope Z_scope.
 
 (* Whenever assembly succeeds (any budget, any matcher mode), the result is a state st from which a strict (last-mode)
    pass recomputes every label, constant, instruction, data element, reservation, alignment and address to exactly what
@@ -24,3 +25,26 @@ Theorem C02_no_output_without_fixpoint : forall names defs ns budget st st' n,
   loop names defs ns budget 0 budget st = EOk (st', n) ->
   Certified names defs ns st' /\ (n <= budget)%nat.
 Proof. exact certificate. Qed.
+
+(* what the certificate says item by item *)
+(* every label's final value is the address at which the item after it really lies *)
+Theorem C02_label_is_address : forall names defs ns1 s ns2 st,
+  labels_ok (ns1 ++ NLabel s :: ns2) st -> Certified names defs (ns1 ++ NLabel s :: ns2) st ->
+  let pos := cursor ns1 st 0 in
+  pos mod 8 = 0 /\ nth s (s_sym st) VUnknown = VInt (un (pos / 8)).
+Proof. exact certified_label. Qed.
+
+(* recomputing an instruction from the final symbol values at its own position selects exactly the emitted encoding ... *)
+Theorem C02_instruction_recomputed : forall names defs ns1 i src ns2 st,
+  labels_ok (ns1 ++ NInstr i src :: ns2) st -> Certified names defs (ns1 ++ NInstr i src :: ns2) st ->
+  exists d, nth_error (s_instr st) i = Some d /\
+    resolve_encoding defs (pvar names st (cursor ns1 st 0) false) false (i_matches d) = EOk (Some (i_enc d)).
+Proof. exact certified_instruction. Qed.
+
+(* ... and that selection is: among the rules that match and whose constraints hold, the unique smallest encoding *)
+Theorem C02_unique_smallest : forall defs pv ms b,
+  resolve_encoding defs pv false ms = EOk (Some b) ->
+  exists rs, resolve_matches defs pv ms = EOk rs /\ In b (resolved_of rs) /\
+    (forall b', In b' (resolved_of rs) -> size_of b <= size_of b') /\
+    (filter (fun b' => size_of b' =? size_of b) (resolved_of rs) = [b]).
+Proof. exact resolve_encoding_strict. Qed.
